@@ -164,6 +164,9 @@ def run(cx):
     sync_reply_mechanism(cx, "C05.v", "C05.w")
     from props.C04 import inst_fragment_flags
     inst_fragment_flags(cx, "C05.x")
+    # every packet is delivered: a ready bit cleared for the wrong channel leaves that channel's packets undelivered
+    from props.shared import receiver_flag_addressing
+    receiver_flag_addressing(cx, "C05.y")
     # both ends round the allocation limit alike; the per-frame datagram count fits its 7-bit wire field
     from props.C06 import inst_sibling_accounting
     inst_sibling_accounting(cx, "C05.q")
